@@ -190,6 +190,11 @@ func parseMetadataQuery(r *http.Request, param string) metadata.MD {
 
 // https://github.com/grpc/grpc/blob/master/doc/PROTOCOL-HTTP2.md
 func isValidMetadataKey(k string) bool {
+	// Header-Name is 1*( %x30-39 / %x61-7A / "_" / "-" / "."), so an empty key is not valid.
+	if k == "" {
+		return false
+	}
+
 	// range over len to validate bytes, not unicode chars.
 	for i := range len(k) {
 		ch := k[i]
